@@ -3,6 +3,7 @@ package main
 import (
 	"bufio"
 	"fmt"
+	"go/types"
 	"os"
 	"path/filepath"
 	"regexp"
@@ -133,5 +134,55 @@ func resolveFn(all map[string]*ssa.Function, pkgPath, name string) *ssa.Function
 			return f
 		}
 	}
-	return nil
+	return lookupAny(name)
+}
+
+var theProg *ssa.Program
+
+// lookupAny resolves a fully qualified function or method of any package of the program, e.g.
+// (*encoding/base64.Encoding).EncodeToString or golang.org/x/crypto/salsa20/salsa.XORKeyStream.
+func lookupAny(name string) *ssa.Function {
+	if theProg == nil {
+		return nil
+	}
+	ptr := strings.HasPrefix(name, "(*")
+	if strings.HasPrefix(name, "(") {
+		i := strings.Index(name, ").")
+		if i < 0 {
+			return nil
+		}
+		typ, meth := strings.TrimPrefix(strings.TrimPrefix(name[:i], "("), "*"), name[i+2:]
+		j := strings.LastIndex(typ, ".")
+		if j < 0 {
+			return nil
+		}
+		pkg := theProg.ImportedPackage(typ[:j])
+		if pkg == nil {
+			return nil
+		}
+		t := pkg.Type(typ[j+1:])
+		if t == nil {
+			return nil
+		}
+		var T types.Type = t.Type()
+		if ptr {
+			T = types.NewPointer(T)
+		}
+		ms := theProg.MethodSets.MethodSet(T)
+		for k := 0; k < ms.Len(); k++ {
+			if ms.At(k).Obj().Name() == meth {
+				return theProg.MethodValue(ms.At(k))
+			}
+		}
+		return nil
+	}
+	j := strings.LastIndex(name, ".")
+	if j < 0 {
+		return nil
+	}
+	pkg := theProg.ImportedPackage(name[:j])
+	if pkg == nil {
+		return nil
+	}
+	return pkg.Func(name[j+1:])
 }
